@@ -19,7 +19,7 @@ from pjplan import Task, WBS, Resource, ForwardScheduler, BackwardScheduler
 
 REAL_DATETIME = datetime
 DAY_US = 86400_000_000
-ALLOWED_CAPS = {0, 4, 8, 16, 32, 64, 128, 256}      # eighths: 0, .5, 1, 2, 4, 8, 16, 32 units (32: day shares of half seconds)
+ALLOWED_CAPS = {0, 4, 8, 16, 32, 64, 128, 256, 8192}      # eighths: 0, .5, 1, 2, 4, 8, 16, 32 units (32: day shares of half seconds), 1024 units (shares of ~10.5 s: DAY = 2^13 * 3^3 * 5^8 us)
 
 
 def set_clock(now_us):
